@@ -17,6 +17,7 @@ Three layers carry the quantifier "for all pairs of values of a floating type":
   about real numbers and are proved in exact arithmetic only.)
 -/
 import DuneVerif.Proofs.C17
+import DuneVerif.Proofs.C17M
 import DuneVerif.Proofs.C17Int
 import Mathlib.Algebra.Order.Field.Rat
 import Mathlib.Algebra.Order.Field.Power
@@ -499,6 +500,152 @@ example : trunc .relativeWeak false .downward trQ (-5/2) 0 = -3 ∧ trunc .relat
   · rw [trunc_towardZero_eq, if_neg (by norm_num), hu]; norm_num
   · rw [trunc_towardInf_eq, if_neg (by norm_num), hd]
 
+/-! ### The integer target type made explicit: `roundM` / `truncM`
+
+`round` / `trunc` above compute with mathematical integers.  The code stores its integers in variables of the target type
+`I`; `roundM t` / `truncM t` (Model/C17.lean; what the driver executes) reduce every stored value as the type `t` does
+(unsigned: modulo `2^bits`; `T(lower+1)` after the integral promotions).  `NoWrap t tr x` says that none of the stored
+values leaves the type; then the two agree and every theorem above speaks about the code.  The remaining case of the
+property's domain is an unsigned target with an argument in (-1,0), where `lower--` turns 0 into the largest value
+`M = 2^bits - 1` of the type: `trunc_unsigned_neg_up`, `round_unsigned_neg`. -/
+
+theorem truncM_eq_trunc (t : IType) (s : Style) (rs : RStyle) {tr : K → Int} (x e : K) (h : NoWrap t tr x) :
+    truncM t s rs tr x e = trunc s (!t.signed) rs tr x e := truncM_eq s rs e h
+
+theorem roundM_eq_round (t : IType) (s : Style) (rs : RStyle) {tr : K → Int} (x e : K) (h : NoWrap t tr x) :
+    roundM t s rs tr x e = round s rs tr x e := roundM_eq s rs e h
+
+/-- `NoWrap` holds for every signed target type (overflow at the ends of the range is outside the model) and for an
+    unsigned one whenever the argument is non-negative and `I(val) + 2` is a value of the type -/
+theorem noWrap_cases (t : IType) {tr : K → Int} (htr : IsTrunc tr) (x : K)
+    (h : t.signed = true ∨ (0 ≤ x ∧ tr x + 2 < 2 ^ t.bits)) : NoWrap t tr x := by
+  rcases h with h | ⟨h0, hhi⟩
+  · exact noWrap_signed h tr x
+  · have h1 := (htr x).1 h0
+    refine noWrap_unsigned tr x (not_lt.mpr h1.1) ?_ hhi
+    have : ((0 : Int) : K) < ((tr x + 1 : Int) : K) := by push_cast; linarith
+    have := Int.cast_lt.mp this; omega
+
+/-- the conversion `I(val)` of an argument in (-1,0) is 0 -/
+theorem tr_eq_zero_of_neg {tr : K → Int} (htr : IsTrunc tr) (x : K) (hx1 : -1 < x) (hx0 : x < 0) : tr x = 0 := by
+  have h := (htr x).2 (le_of_lt hx0)
+  have a : ((-1 : Int) : K) < ((tr x : Int) : K) := by push_cast; linarith
+  have b : ((tr x : Int) : K) < ((1 : Int) : K) := by push_cast; linarith
+  have := Int.cast_lt.mp a; have := Int.cast_lt.mp b; omega
+
+/-- a positive integer `N` is not equal within epsilon to an argument `x` in (-1,0) that is not equal to 0 within
+    epsilon — for the relative-strong style provided `ε·|x| < N + |x|` (the tolerance `ε·min(N,|x|)` is `ε·|x|`) -/
+theorem eqS_posInt_neg_false (s : Style) (N : Int) (x e : K) (hN : 1 ≤ N) (hx1 : -1 < x) (hx0 : x < 0)
+    (hz : eqS s x 0 e = false) (hs : s = .relativeStrong → e * (-x) < (N : K) - x) :
+    eqS s ((N : Int) : K) x e = false := by
+  have hNK : (1 : K) ≤ (N : K) := by exact_mod_cast hN
+  rw [Bool.eq_false_iff, Ne, eqS_iff] at hz ⊢
+  intro h
+  apply hz
+  have hxa : |x| = -x := abs_of_neg hx0
+  have hNa : |(N : K)| = (N : K) := abs_of_pos (by linarith)
+  have hd : |(N : K) - x| = (N : K) - x := abs_of_pos (by linarith)
+  rw [hd] at h
+  rw [sub_zero, hxa]
+  cases s
+  · -- relativeWeak: tolerance ε·N; `x` is not 0 within epsilon means ε < 1
+    simp only [tol, hxa, hNa, abs_zero] at h ⊢
+    rw [max_eq_left (by linarith : -x ≤ (N : K))] at h
+    rw [max_eq_left (by linarith : (0 : K) ≤ -x)]
+    by_contra hc
+    have he : e < 1 := by
+      by_contra he'
+      exact hc (le_mul_of_one_le_left (by linarith) (not_lt.mp he'))
+    have : e * (N : K) < 1 * (N : K) := mul_lt_mul_of_pos_right he (by linarith)
+    linarith
+  · simp only [tol, hxa, hNa, abs_zero] at h ⊢
+    rw [min_eq_right (by linarith : -x ≤ (N : K))] at h
+    exact absurd h (not_le.mpr (hs rfl))
+  · simp only [tol] at h ⊢
+    linarith
+
+/-- **unsigned target, argument in (-1,0), truncation upward / toward zero: the result is 0.**  The downward step
+    decrements 0 to the largest value `M = 2^bits - 1` of the type; the correction `if(ne(T(upper), val)) ++upper` sees
+    `T(M)`, which differs from `val`, and the increment wraps around to 0 — the integer above the argument, the only
+    value of the type within distance 1.  Every comparison style and every epsilon ≥ 0; for the relative-strong style
+    provided `ε·|val| < M + |val|` (otherwise `M` itself is "equal to val within epsilon"; the documented result is then
+    the integer -1, which the type does not have). -/
+theorem trunc_unsigned_neg_up (t : IType) (ht : t.signed = false) (hb : 0 < t.bits) (s : Style) (rs : RStyle)
+    (hrs : rs = .upward ∨ rs = .towardZero) {tr : K → Int} (htr : IsTrunc tr) (x e : K) (hx1 : -1 < x) (hx0 : x < 0)
+    (hs : s = .relativeStrong → e * (-x) < (((2 : Int) ^ t.bits - 1 : Int) : K) - x) :
+    truncM t s rs tr x e = 0 := by
+  have htr0 : tr x = 0 := tr_eq_zero_of_neg htr x hx1 hx0
+  have hp : (2 : Int) ≤ 2 ^ t.bits := by
+    calc (2 : Int) = 2 ^ 1 := by norm_num
+      _ ≤ 2 ^ t.bits := pow_le_pow_right₀ (by norm_num) hb
+  have hgt : ((0 : Int) : K) > x := by push_cast; exact hx0
+  have hup : truncUpM t s tr x e = 0 := by
+    cases hz : eqS s x ((0 : Int) : K) e
+    · -- not equal to 0 within epsilon
+      have hz' : eqS s x 0 e = false := by simpa using hz
+      have hM : eqS s (((2 : Int) ^ t.bits - 1 : Int) : K) x e = false :=
+        eqS_posInt_neg_false s _ x e (by omega) hx1 hx0 hz' hs
+      have hsame : sameVal ((((2 : Int) ^ t.bits - 1 : Int) : Int) : K) x = false := by
+        rw [Bool.eq_false_iff, Ne, sameVal_iff]; intro h
+        have : (1 : K) ≤ (((2 : Int) ^ t.bits - 1 : Int) : K) := by exact_mod_cast (by omega : (1 : Int) ≤ 2 ^ t.bits - 1)
+        linarith
+      have harith : eqS s ((t.arith ((2 : Int) ^ t.bits - 1 + 1) : Int) : K) x e = false := by
+        unfold IType.arith
+        split
+        · refine eqS_posInt_neg_false s _ x e (by omega) hx1 hx0 hz' (fun h => lt_trans (hs h) ?_)
+          push_cast; linarith
+        · rw [IType.wrap_pow ht, eqS_symm]; simpa using hz
+      have hd : truncDownM t s tr x e = 2 ^ t.bits - 1 := by
+        unfold truncDownM
+        simp only [ht, hz, Bool.not_false, Bool.and_false, Bool.false_eq_true, if_false, htr0, hgt, if_true,
+          IType.wrap_neg_one ht, hsame, harith]
+      unfold truncUpM
+      simp only [hd, neS, Gen.ne, hM, Bool.not_false, if_true, IType.wrap_pow ht]
+    · have hd : truncDownM t s tr x e = 0 := by
+        unfold truncDownM; simp only [ht, hz, Bool.not_false, Bool.and_true, if_true]
+      have h' : eqS s ((0 : Int) : K) x e = true := by rw [eqS_symm]; exact hz
+      unfold truncUpM
+      simp only [hd, neS, Gen.ne, h', Bool.not_true, Bool.false_eq_true, if_false]
+  have hng : ¬ x > ((0 : Int) : K) := by push_cast; exact not_lt.mpr (le_of_lt hx0)
+  rcases hrs with h | h <;> subst h <;> simp only [truncM, hng, if_false, hup]
+
+/-- unsigned target, argument in (-1,0): `round` returns 0 where the mathematical result is 0, and the largest value
+    of the type where it is -1 (the nearest integer is then not a value of the type) -/
+theorem round_unsigned_neg (t : IType) (ht : t.signed = false) (hb : 0 < t.bits) (s : Style) (rs : RStyle)
+    {tr : K → Int} (htr : IsTrunc tr) (x e : K) (h0 : 0 ≤ e) (hx1 : -1 < x) (hx0 : x < 0) :
+    (round s rs tr x e = 0 ∧ roundM t s rs tr x e = 0) ∨
+    (round s rs tr x e = -1 ∧ roundM t s rs tr x e = 2 ^ t.bits - 1) := by
+  have htr0 : tr x = 0 := tr_eq_zero_of_neg htr x hx1 hx0
+  have hp : (2 : Int) ≤ 2 ^ t.bits := by
+    calc (2 : Int) = 2 ^ 1 := by norm_num
+      _ ≤ 2 ^ t.bits := pow_le_pow_right₀ (by norm_num) hb
+  have hw : roundM t s rs tr x e = t.wrap (round s rs tr x e) := by
+    apply roundM_eq_wrap
+    · rw [htr0]; exact IType.wrap_of_range 0 (by omega) (by omega)
+    · rw [htr0]; exact IType.wrap_of_range _ (by omega) (by omega)
+  have hwi := (round_within s rs htr x e h0).1
+  rw [abs_lt] at hwi
+  have a : ((-2 : Int) : K) < ((round s rs tr x e : Int) : K) := by push_cast; linarith
+  have b : ((round s rs tr x e : Int) : K) < ((1 : Int) : K) := by push_cast; linarith
+  have a' := Int.cast_lt.mp a
+  have b' := Int.cast_lt.mp b
+  have hr : round s rs tr x e = 0 ∨ round s rs tr x e = -1 := by omega
+  rcases hr with hr | hr
+  · left; refine ⟨hr, ?_⟩; rw [hw, hr]; exact IType.wrap_of_range 0 (by omega) (by omega)
+  · right; refine ⟨hr, ?_⟩; rw [hw, hr]; exact IType.wrap_neg_one ht
+
+-- -4/5 with the absolute epsilon 3/10 truncated upward: the argument is within epsilon of the integer -1 below it.  With
+-- mathematical integers (a signed target) the result is -1; an `unsigned` target returns 0 — this is where `truncM`
+-- and `trunc` part, and why the check runs the machine-integer version against the code
+example : trunc .absolute false .upward trQ (-4/5) (3/10) = -1 ∧ truncM uint32 .absolute .upward trQ (-4/5) (3/10) = 0 := by
+  constructor
+  · have := trunc_upward_spec .absolute trQ_isTrunc (-4/5) (3/10) (-1) (by norm_num) (by norm_num) (by norm_num)
+    rw [this, if_neg (by norm_num), if_neg (by rw [Bool.not_eq_true, Bool.eq_false_iff, Ne, eq_def]; norm_num [tol, abs_of_pos]),
+      if_pos (by rw [eq_def]; norm_num [tol, abs_of_neg])]
+  · exact trunc_unsigned_neg_up uint32 rfl (by decide) .absolute .upward (Or.inl rfl) trQ_isTrunc _ _ (by norm_num) (by norm_num)
+      (fun h => by cases h)
+
+
 end rounding
 
 /-! ## The functions the driver executes on exact inputs are the generic ones at `ℚ`
@@ -572,6 +719,30 @@ theorem rat_trunc_unsigned (s : Style) (rs : RStyle) (x e : ℚ) :
     (eqRat s x 0 e = true → truncRat s true rs x e = 0) ∧
     (eqRat s x 0 e = false → truncRat s true rs x e = truncRat s false rs x e) :=
   ⟨trunc_unsigned_zero s rs trRat x e, trunc_unsigned_eq_signed s rs trRat x e⟩
+
+/-- the op lines `round` / `trunc` are evaluated with `roundRatM t` / `truncRatM t` (integer type `t` explicit).  For a
+    signed `t`, and for an unsigned `t` with a non-negative argument whose integer part plus 2 is a value of `t`, these
+    are `roundRat` / `truncRat`, about which the theorems above speak -/
+theorem rat_roundM_truncM_eq (t : IType) (s : Style) (rs : RStyle) (x e : ℚ)
+    (h : t.signed = true ∨ (0 ≤ x ∧ trRat x + 2 < 2 ^ t.bits)) :
+    roundRatM t s rs x e = roundRat s rs x e ∧ truncRatM t s rs x e = truncRat s (!t.signed) rs x e :=
+  have hw := noWrap_cases t trRat_isTrunc x h
+  ⟨roundM_eq_round t s rs x e hw, truncM_eq_trunc t s rs x e hw⟩
+/-- … and for an unsigned `t` and an argument in (-1,0), upward / toward zero, `trunc` gives 0 -/
+theorem rat_trunc_unsigned_neg_up (t : IType) (ht : t.signed = false) (hb : 0 < t.bits) (s : Style) (rs : RStyle)
+    (hrs : rs = .upward ∨ rs = .towardZero) (x e : ℚ) (hx1 : -1 < x) (hx0 : x < 0)
+    (hs : s = .relativeStrong → e * (-x) < (((2 : Int) ^ t.bits - 1 : Int) : ℚ) - x) :
+    truncRatM t s rs x e = 0 := trunc_unsigned_neg_up t ht hb s rs hrs trRat_isTrunc x e hx1 hx0 hs
+theorem rat_round_unsigned_neg (t : IType) (ht : t.signed = false) (hb : 0 < t.bits) (s : Style) (rs : RStyle)
+    (x e : ℚ) (h0 : 0 ≤ e) (hx1 : -1 < x) (hx0 : x < 0) :
+    (roundRat s rs x e = 0 ∧ roundRatM t s rs x e = 0) ∨
+    (roundRat s rs x e = -1 ∧ roundRatM t s rs x e = 2 ^ t.bits - 1) :=
+  round_unsigned_neg t ht hb s rs trRat_isTrunc x e h0 hx1 hx0
+
+-- the driver's own evaluation of `trunc f64 u8 absolute towardZero -1:-1 1:-3` is 0; without the hypothesis on epsilon of
+-- the relative-strong style the result can be the largest value: `trunc f64 u8 relativeStrong upward -1:-1 1:10`
+example : truncRatM uint8 .absolute .towardZero (-1/2) (1/8) = 0 :=
+  rat_trunc_unsigned_neg_up uint8 rfl (by decide) .absolute .towardZero (Or.inr rfl) _ _ (by norm_num) (by norm_num) (fun h => by cases h)
 
 -- the driver's own evaluation of `cmp f64 relativeWeak 1:0 3:-1 1:-1` and `round f64 i32 absolute upward 5:-1 1:-10`
 example : eqRat .relativeWeak 1 (3/2) (1/2) = true := by rw [rat_eq_def]; norm_num [tol, abs_of_pos, abs_of_neg]
@@ -666,6 +837,15 @@ theorem fp_round_trunc_int (s : Style) (rs : RStyle) (n i m : Int) (hm : 0 ≤ m
     (hT : ((i : Int) : FP f) = .fin n) (hI : FP.trunc (.fin n : FP f) = i) :
     round s rs FP.trunc (.fin n : FP f) (.fin m) = i ∧ trunc s false rs FP.trunc (.fin n : FP f) (.fin m) = i :=
   FP.round_trunc_int s rs n i m hm hT hI
+
+/-- the same for the functions the driver executes (`roundM` / `truncM`), signed target types: nothing wraps around -/
+theorem fp_roundM_truncM_int (t : IType) (ht : t.signed = true) (s : Style) (rs : RStyle) (n i m : Int) (hm : 0 ≤ m)
+    (hT : ((i : Int) : FP f) = .fin n) (hI : FP.trunc (.fin n : FP f) = i) :
+    roundM t s rs FP.trunc (.fin n : FP f) (.fin m) = i ∧ truncM t s rs FP.trunc (.fin n : FP f) (.fin m) = i := by
+  have hw := noWrap_signed ht FP.trunc (.fin n : FP f)
+  have h := fp_round_trunc_int s rs n i m hm hT hI
+  rw [roundM_eq s rs _ hw, truncM_eq s rs _ hw, ht]
+  exact h
 
 end floating
 
